@@ -22,7 +22,10 @@ pub struct RunResult {
 
 pub struct PropSpec {
     pub id: &'static str,
+    /// primary engine
     pub engine: &'static str,
+    /// optional mix of engines: (engine, weight); run index i uses the engine at i mod total weight
+    pub mix: &'static [(&'static str, u32)],
     /// violation-class prefixes attributed to this property
     pub classes: &'static [&'static str],
     /// a run is non-trivial if every group has at least one probe that fired
@@ -38,6 +41,7 @@ pub const PROPS: &[PropSpec] = &[
     PropSpec {
         id: "C01",
         engine: "e3",
+        mix: &[],
         classes: &["read/", "get/", "append/id-not-increasing", "append/fields", "remove/failed", "reopen-failed", "import/rejected-valid"],
         nontrivial: &[&["read:sync", "read:async", "get"], &["remove:live", "gc:step", "gc:drain-nonempty", "import:ok", "clock:edge", "clock:edge+1", "layout:reopened-clean", "layout:reopened-crash", "layout:flushed"]],
         must_reach: &["read:sync", "read:async", "get", "remove:live", "import:ok", "gc:step", "layout:flushed", "layout:reopened-clean", "layout:reopened-crash", "read:limit-cut", "read:async-backpressure", "layout:tombstone-over-segment"],
@@ -48,6 +52,7 @@ pub const PROPS: &[PropSpec] = &[
     PropSpec {
         id: "C05",
         engine: "e3",
+        mix: &[],
         classes: &["agree/", "head/", "append/accepted-nul", "import/accepted-invalid"],
         nontrivial: &[&["settle"], &["head"], &["remove:live", "gc:step", "import:ok"]],
         must_reach: &["settle", "head", "remove:live", "import:ok", "append:rejected", "import:rejected"],
@@ -58,9 +63,10 @@ pub const PROPS: &[PropSpec] = &[
     PropSpec {
         id: "C07",
         engine: "e3",
+        mix: &[("e3", 3), ("e2", 1)],
         classes: &["ctx/reopen-changed", "ctx/registration-ttl", "append/accepted-unregistered", "append/accepted-regctx", "append/rejected-valid", "follow/unexpected"],
         nontrivial: &[&["ctx:registered", "ctx:imported-registration"], &["append:rejected", "ctx:unregistered", "layout:reopened-clean", "layout:reopened-crash"]],
-        must_reach: &["ctx:registered", "ctx:imported-registration", "ctx:unregistered", "append:rejected", "layout:reopened-clean", "layout:reopened-crash"],
+        must_reach: &["ctx:registered", "ctx:imported-registration", "ctx:unregistered", "append:rejected", "layout:reopened-clean", "layout:reopened-crash", "ctx:append-raced-removal"],
         quick_runs: 10_000,
         thorough_runs: 300_000,
         rule: "histories of context registration / removal / import of registration frames / appends into registered, never-registered, unregistered-again and adjacent contexts / clean and crash reopen, with a tail follower attached; non-trivial = a registration and one of (rejected append, unregistration, reopen) happened; distinct = distinct trace hash",
@@ -68,6 +74,7 @@ pub const PROPS: &[PropSpec] = &[
     PropSpec {
         id: "C08",
         engine: "e3",
+        mix: &[],
         classes: &["read/missing", "get/missing", "head/missing"],
         nontrivial: &[&["gc:step", "gc:drain-nonempty"], &["read:sync", "read:async", "get", "settle"]],
         must_reach: &["gc:step", "gc:drain-nonempty", "clock:edge-1", "clock:edge", "clock:edge+1", "ttl:head-clause-checked"],
@@ -78,6 +85,7 @@ pub const PROPS: &[PropSpec] = &[
     PropSpec {
         id: "C09",
         engine: "e3",
+        mix: &[],
         classes: &["ttl/", "read/unexpected-expired", "read/unexpected-ephemeral", "read/unexpected-collected", "get/unexpected-ephemeral", "get/unexpected-collected", "head/unexpected", "follow/missing"],
         nontrivial: &[&["gc:step", "gc:drain-nonempty"], &["settle"]],
         must_reach: &["gc:drain-nonempty", "clock:edge", "clock:edge+1", "ttl:head-clause-checked", "settle"],
@@ -88,6 +96,7 @@ pub const PROPS: &[PropSpec] = &[
     PropSpec {
         id: "C02",
         engine: "e2",
+        mix: &[],
         classes: &["append-only/", "follow/order", "follow/duplicate"],
         nontrivial: &[&["overlap:writers"], &["poll"]],
         must_reach: &["overlap:writers", "poll", "win:live", "site:append.id", "site:append.committed", "site:append.broadcast"],
@@ -98,6 +107,7 @@ pub const PROPS: &[PropSpec] = &[
     PropSpec {
         id: "C03",
         engine: "e2",
+        mix: &[],
         classes: &["follow/gap", "follow/missing", "follow/duplicate", "follow/order", "follow/unexpected", "follow/fields", "follow/threshold", "follow/closed-early", "panic"],
         nontrivial: &[&["win:subscribed", "win:pre-scan", "win:scanning", "win:scanned", "win:done-pending", "win:live-start"]],
         must_reach: &["win:subscribed", "win:pre-scan", "win:scanning", "win:scanned", "win:done-pending", "win:live-start", "win:live", "threshold:seen"],
@@ -108,6 +118,7 @@ pub const PROPS: &[PropSpec] = &[
     PropSpec {
         id: "C11",
         engine: "e2",
+        mix: &[],
         classes: &["follow/limit", "follow/tail-history", "follow/foreign-synthetic", "follow/unexpected-threshold", "follow/synthetic-stored", "follow/zombie-heartbeat", "follow/nofollow-open", "follow/gap", "follow/closed-early"],
         nontrivial: &[&["limit:reached", "lag:possible", "pulse:seen", "win:live"]],
         must_reach: &["limit:reached", "limit:all-history", "limit:split-history-live", "lag:possible", "lag:cut-off", "pulse:seen", "tick"],
@@ -118,6 +129,7 @@ pub const PROPS: &[PropSpec] = &[
     PropSpec {
         id: "C04",
         engine: "e1",
+        mix: &[],
         classes: &["crash/"],
         nontrivial: &[&["cut:inside-operation"]],
         must_reach: &["image:kill", "image:power-drop", "image:torn", "cut:inside-operation", "cas:sized", "cas:stream", "frame:>8KiB", "remove", "import", "gc:step", "flush", "reopen-in-recording"],
@@ -141,8 +153,31 @@ pub fn is_nontrivial(spec: &PropSpec, probes: &BTreeMap<String, u64>) -> bool {
         .all(|group| group.iter().any(|p| probes.get(*p).copied().unwrap_or(0) > 0))
 }
 
-pub fn gen_plan(spec: &PropSpec, thorough: bool, seed: u64) -> Value {
-    match spec.engine {
+pub fn engine_for(spec: &PropSpec, index: u64) -> &'static str {
+    if spec.mix.is_empty() {
+        return spec.engine;
+    }
+    let total: u64 = spec.mix.iter().map(|(_, w)| *w as u64).sum();
+    let mut r = index % total.max(1);
+    for (e, w) in spec.mix {
+        if r < *w as u64 {
+            return e;
+        }
+        r -= *w as u64;
+    }
+    spec.engine
+}
+
+pub fn gen_plan(spec: &PropSpec, engine: &str, thorough: bool, seed: u64) -> Value {
+    let mut v = gen_plan_inner(spec, engine, thorough, seed);
+    if let Some(m) = v.as_object_mut() {
+        m.insert("engine".to_string(), Value::String(engine.to_string()));
+    }
+    v
+}
+
+fn gen_plan_inner(spec: &PropSpec, engine: &str, thorough: bool, seed: u64) -> Value {
+    match engine {
         "e3" => {
             let cfg = crate::e3::GenCfg::for_prop(spec.id, thorough);
             serde_json::to_value(crate::e3::generate(seed, &cfg)).unwrap()
@@ -154,6 +189,7 @@ pub fn gen_plan(spec: &PropSpec, thorough: bool, seed: u64) -> Value {
 }
 
 pub fn exec_plan(engine: &str, plan: &Value, tag: &str) -> RunResult {
+    let engine = plan.get("engine").and_then(|e| e.as_str()).unwrap_or(engine);
     match engine {
         "e3" => crate::e3::exec_value(plan, tag),
         "e1" => crate::e1::exec_value(plan, tag),
